@@ -8,7 +8,7 @@ CONSTANTS
   InheritBound <- MCInheritBound
   MaxDepth = 2
   Starts <- StartsThorough
-  Allowed = {"resources.shadow.deep", "fresh.aboveMax", "maxid.setObject", "counts.indirect", "delete.bookmark"}
+  Allowed = {"resources.shadow.incremental"}
   Emit = TRUE
   EmitMod = 2000
   EmitModV = 200
